@@ -514,3 +514,52 @@ func (c *Ctx) noGlobalWrites(rule string, root *ssa.Function) {
 		c.S.OK(rule, load.FuncName(root)+":no package-level state", c.pos(root.Pos()), fmt.Sprintf("%d writes in the closure, none to a package-level variable", len(ws)), true)
 	}
 }
+
+// wholeFileWrites: the file-opening primitives in the call closures of roots replace a file's contents: os.WriteFile /
+// os.Create, or os.OpenFile with O_TRUNC and without O_APPEND when opened for writing. A write that keeps the tail of
+// a longer previous version leaves bytes behind the new contents. Returns the number of opening calls examined.
+func (c *Ctx) wholeFileWrites(rule string, roots []*ssa.Function) int {
+	nOpen := 0
+	for _, f := range roots {
+		clo := c.reachable([]*ssa.Function{f}, nil)
+		var gs []*ssa.Function
+		for g := range clo {
+			if g != nil {
+				gs = append(gs, g)
+			}
+		}
+		sort.Slice(gs, func(i, j int) bool { return gs[i].Pos() < gs[j].Pos() })
+		for _, g := range gs {
+			for _, call := range callsIn(g, func(call ssa.CallInstruction) bool {
+				cal := call.Common().StaticCallee()
+				return cal != nil && cal.Pkg != nil && cal.Pkg.Pkg.Path() == "os" && (cal.Name() == "OpenFile" || cal.Name() == "WriteFile" || cal.Name() == "Create")
+			}) {
+				nOpen++
+				cal := call.Common().StaticCallee()
+				if cal.Name() != "OpenFile" {
+					c.S.OK(rule, load.FuncName(f)+"→"+load.FuncName(g)+":os."+cal.Name(), c.pos(call.Pos()), "replaces the file's contents", false)
+					continue
+				}
+				k, isK := call.Common().Args[1].(*ssa.Const)
+				okFlags := false
+				detail := "the open flags are not a constant"
+				if isK && k.Value != nil {
+					fl := k.Int64()
+					oWronly, ok1 := c.extConstInt("os", "O_WRONLY")
+					oRdwr, ok2 := c.extConstInt("os", "O_RDWR")
+					oTrunc, ok3 := c.extConstInt("os", "O_TRUNC")
+					oAppend, ok4 := c.extConstInt("os", "O_APPEND")
+					if ok1 && ok2 && ok3 && ok4 {
+						writes := fl&(oWronly|oRdwr) != 0
+						okFlags = !writes || (fl&oTrunc != 0 && fl&oAppend == 0)
+						detail = fmt.Sprintf("opened for writing with flags %#x: no O_TRUNC (or O_APPEND): bytes of a longer previous version survive behind the new contents", fl)
+					} else {
+						detail = "os.O_* constants not found"
+					}
+				}
+				c.S.Check(okFlags, rule, load.FuncName(f)+"→"+load.FuncName(g)+":os.OpenFile", c.pos(call.Pos()), "opened with O_TRUNC", detail)
+			}
+		}
+	}
+	return nOpen
+}
